@@ -8,9 +8,12 @@ import NeumannModel.Durable.Session
     * `failed_writes_are_invisible` (Props): whatever the failure pattern and the crash cut,
       recovery yields the full image of a prefix of the operations that returned `Ok`;
     * `size_limited_session_is_a_plan`: the `auto_rotate = false` writer is an instance.
-  The writer's store is no longer `Good` (a failed `put_durable` leaves an entity-index entry
-  behind: `failMem`), so the simulation is one-sided: the replayed store indexes a SUBSET of
-  the `emb:` keys the writer indexes (`SimLe`).
+  Since repo f5ce42e5 a failed `put_durable` releases the entity-index entry it allocated
+  (`failMem`: at most a tombstoned slot stays), so the writer's store stays `Good` and
+  `get` / `exists` / `scan` cannot tell that the operation was issued (`failMem_get`,
+  `failMem_exists`, `failMem_scan`, `good_runOpsF`).  The simulation between the replayed store
+  and the writer's is still stated one-sided (`SimLe`: the replayed store indexes a SUBSET of
+  the `emb:` keys the writer indexes), which is all recovery needs.
 -/
 namespace Neumann.Durable
 open Neumann.FramedLog
@@ -52,34 +55,127 @@ theorem nodup_step {s : Store} (hn : LiveNodup s.vocab) (op : Op) : LiveNodup (s
       · rw [delete_emb s k hk]; exact liveNodup_remove hn k
       · rw [delete_plain s k hk hc0]; exact hn
 
-theorem failMem_md (s : Store) (op : Op) : (failMem s op).md = s.md := by
-  cases op with
-  | put k v => simp only [failMem]; split <;> try rfl
-               split <;> rfl
-  | delete k => rfl
+/-! #### memory after a failed operation (`failMem`, the code since repo f5ce42e5) -/
 
-theorem nodup_failMem {s : Store} (hn : LiveNodup s.vocab) (op : Op) : LiveNodup (failMem s op).vocab := by
+theorem idxGet_append_dead (v : List (Bytes × Bool)) (k k1 : Bytes) :
+    idxGet (v ++ [(k, false)]) k1 = idxGet v k1 := by
+  unfold idxGet
+  rw [idxGetAux_append]
+  cases h : idxGetAux v k1 0 with
+  | some i => rfl
+  | none => simp [idxGetAux]
+
+/-- `get_or_create` of a key that is not indexed, then `remove`: one tombstoned slot -/
+theorem release_created (v : List (Bytes × Bool)) (k : Bytes) (h : idxGet v k = none) :
+    idxRemove (idxGetOrCreate v k).2 k = v ++ [(k, false)] := by
+  have h1 : (idxGetOrCreate v k).2 = v ++ [(k, true)] := by unfold idxGetOrCreate; rw [h]
+  rw [h1]
+  unfold idxRemove
+  rw [idxGet_append_self v k h]
+  simp
+
+/-- a failed operation leaves every slab alone and appends at most one DEAD slot to the vocabulary -/
+theorem failMem_shape (s : Store) (op : Op) :
+    (failMem s op).md = s.md ∧ (failMem s op).slab = s.slab ∧ (failMem s op).cache = s.cache ∧
+    ((failMem s op).vocab = s.vocab ∨ ∃ k, (failMem s op).vocab = s.vocab ++ [(k, false)]) := by
   cases op with
   | put k v =>
     simp only [failMem]
     split
-    · exact hn
+    · exact ⟨rfl, rfl, rfl, .inl rfl⟩
     · split
-      · exact liveNodup_getOrCreate hn k
-      · exact hn
-  | delete k => exact hn
+      · cases h : idxGet s.vocab k with
+        | none => exact ⟨rfl, rfl, rfl, .inr ⟨k, release_created s.vocab k h⟩⟩
+        | some i => exact ⟨rfl, rfl, rfl, .inl rfl⟩
+      · exact ⟨rfl, rfl, rfl, .inl rfl⟩
+  | delete k => exact ⟨rfl, rfl, rfl, .inl rfl⟩
+
+theorem failMem_md (s : Store) (op : Op) : (failMem s op).md = s.md := (failMem_shape s op).1
+
+/-- no key is indexed after a failed operation that was not indexed before, and none is lost -/
+theorem failMem_idxGet (s : Store) (op : Op) (k1 : Bytes) :
+    idxGet (failMem s op).vocab k1 = idxGet s.vocab k1 := by
+  rcases (failMem_shape s op).2.2.2 with h | ⟨k, h⟩
+  · rw [h]
+  · rw [h, idxGet_append_dead]
+
+theorem failMem_live_filter (s : Store) (op : Op) :
+    (failMem s op).vocab.filter (·.2) = s.vocab.filter (·.2) := by
+  rcases (failMem_shape s op).2.2.2 with h | ⟨k, h⟩
+  · rw [h]
+  · rw [h]; simp
+
+theorem liveNodup_of_idxGet_filter {v w : List (Bytes × Bool)} (hn : LiveNodup v)
+    (h : w = v ∨ ∃ k, w = v ++ [(k, false)]) : LiveNodup w := by
+  rcases h with rfl | ⟨k, rfl⟩
+  · exact hn
+  · intro i j k' hi hj
+    have key : ∀ (i : Nat), (v ++ [(k, false)])[i]? = some (k', true) → v[i]? = some (k', true) := by
+      intro i hi
+      by_cases hlt : i < v.length
+      · rwa [List.getElem?_append_left hlt] at hi
+      · rw [List.getElem?_append_right (by omega)] at hi
+        cases hm : i - v.length with
+        | zero => rw [hm] at hi; simp at hi
+        | succ m => rw [hm] at hi; simp at hi
+    exact hn i j k' (key i hi) (key j hj)
+
+theorem nodup_failMem {s : Store} (hn : LiveNodup s.vocab) (op : Op) : LiveNodup (failMem s op).vocab :=
+  liveNodup_of_idxGet_filter hn (failMem_shape s op).2.2.2
 
 theorem failMem_live (s : Store) (op : Op) (k1 : Bytes) (h : (idxGet s.vocab k1).isSome = true) :
     (idxGet (failMem s op).vocab k1).isSome = true := by
+  rw [failMem_idxGet]; exact h
+
+/-- **the overlay invariant survives a failed operation** (false of `failMemOld`: the leaked
+    index entry has no metadata record) -/
+theorem good_failMem {s : Store} (hg : Good s) (op : Op) : Good (failMem s op) := by
+  obtain ⟨h1, h2, _, _⟩ := failMem_shape s op
+  refine ⟨nodup_failMem hg.nodup op, ?_, ?_⟩
+  · intro k id vec hk hi hs
+    rw [failMem_idxGet] at hi; rw [h2] at hs; rw [h1]
+    exact hg.slab k id vec hk hi hs
+  · intro k id hk hi
+    rw [failMem_idxGet] at hi; rw [h1]
+    exact hg.idxmd k id hk hi
+
+/-- `get`, `exists` and `scan` cannot tell that a failed operation was ever issued -/
+theorem failMem_get (s : Store) (op : Op) (k : Bytes) : get (failMem s op) k = get s k := by
+  obtain ⟨h1, h2, h3, _⟩ := failMem_shape s op
+  unfold get
+  rw [failMem_idxGet, h1, h2, h3]
+
+theorem failMem_exists (s : Store) (op : Op) (k : Bytes) : exists_ (failMem s op) k = exists_ s k := by
+  obtain ⟨h1, _, h3, _⟩ := failMem_shape s op
+  unfold exists_
+  rw [failMem_idxGet, h1, h3]
+
+theorem failMem_scan (s : Store) (op : Op) : scanKeys (failMem s op) = scanKeys s := by
+  obtain ⟨h1, _, h3, _⟩ := failMem_shape s op
+  unfold scanKeys
+  rw [failMem_live_filter, h1, h3]
+
+theorem classed_failMem {s : Store} (hc : Classed s) (op : Op) : Classed (failMem s op) := by
+  obtain ⟨h1, _, h3, _⟩ := failMem_shape s op
+  refine ⟨by rw [h1]; exact hc.md, by rw [h3]; exact hc.cache, ?_⟩
   cases op with
   | put k v =>
     simp only [failMem]
     split
-    · exact h
+    · exact hc.vocab
     · split
-      · simp only []; rw [getOrCreate_live, h]; simp
-      · exact h
-  | delete k => exact h
+      · rename_i hk
+        cases h : idxGet s.vocab k with
+        | none =>
+          simp only []
+          rw [release_created s.vocab k h]
+          intro p hp
+          rcases List.mem_append.mp hp with hp | hp
+          · exact hc.vocab p hp
+          · simp only [List.mem_singleton] at hp; subst hp; exact hk.1
+        | some i => exact hc.vocab
+      · exact hc.vocab
+  | delete k => exact hc.vocab
 
 /-- **one operation whose records are all appended**, one-sided simulation: the overlay invariant
     holds after EVERY record, the metadata maps agree at the end, and the replayed store still
@@ -445,6 +541,53 @@ theorem group_prefixF (s : Store) (plan : List (Op × Option Nat)) (i : Nat) :
           rw [List.take_succ_cons, runOpsF_cons] at hlen
           simp only [List.length_append] at hlen
           omega
+
+/-! #### the writer's own store in a session with failing appends -/
+
+theorem good_stepF {s : Store} (hg : Good s) (o : Op) (t : Option Nat) : Good (stepF s o t).2.1 := by
+  cases t with
+  | none => exact good_step hg o
+  | some t =>
+    simp only [stepF]
+    split
+    · exact good_failMem hg o
+    · exact good_step hg o
+
+theorem classed_stepF {s : Store} (hc : Classed s) (o : Op) (t : Option Nat) : Classed (stepF s o t).2.1 := by
+  cases t with
+  | none => exact classed_step hc o
+  | some t =>
+    simp only [stepF]
+    split
+    · exact classed_failMem hc o
+    · exact classed_step hc o
+
+/-- the writer's store keeps the overlay invariant whatever fails -/
+theorem good_runOpsF {s : Store} (hg : Good s) (plan : List (Op × Option Nat)) : Good (runOpsF s plan).2.1 := by
+  induction plan generalizing s with
+  | nil => exact hg
+  | cons ot plan ih => obtain ⟨o, t⟩ := ot; rw [runOpsF_cons]; exact ih (good_stepF hg o t)
+
+theorem classed_runOpsF {s : Store} (hc : Classed s) (plan : List (Op × Option Nat)) :
+    Classed (runOpsF s plan).2.1 := by
+  induction plan generalizing s with
+  | nil => exact hc
+  | cons ot plan ih => obtain ⟨o, t⟩ := ot; rw [runOpsF_cons]; exact ih (classed_stepF hc o t)
+
+/-- the writer's metadata map is the map of the operations that returned `Ok` -/
+theorem runOpsF_md (s : Store) (plan : List (Op × Option Nat)) :
+    (runOpsF s plan).2.1.md = specRun s.md (runOpsF s plan).2.2 := by
+  induction plan generalizing s with
+  | nil => simp [runOpsF_nil, specRun_nil]
+  | cons ot plan ih =>
+    obtain ⟨o, t⟩ := ot
+    rw [runOpsF_cons]
+    simp only []
+    rw [ih, (stepF_md s o t).2]
+    by_cases hb : (stepF s o t).2.2 = true
+    · simp only [hb, if_true, specRun_cons]
+    · have hb0 : (stepF s o t).2.2 = false := by simpa using hb
+      simp only [hb0, Bool.false_eq_true, if_false]
 
 /-! #### the `auto_rotate = false` writer is an instance -/
 
